@@ -505,7 +505,102 @@ def undefined_name(e: BaseException) -> str | None:
     return m.group(1) if m else None
 
 
-def dynamic_check(code: str, kind: str) -> dict | None:
+def leaf_classes(tp, wanted: set) -> set:
+    """the classes of `wanted` (classes the module defines) that occur anywhere inside the type `tp`"""
+    out: set = set()
+    seen: set = set()
+
+    def go(t):
+        if id(t) in seen:
+            return
+        seen.add(id(t))
+        if isinstance(t, (list, tuple)):
+            for x in t:
+                go(x)
+            return
+        if isinstance(t, type) and t in wanted:
+            out.add(t)
+        if isinstance(t, type) and hasattr(t, "item_type"):  # pydantic.v1 ConstrainedList / ConstrainedSet
+            go(t.item_type)
+        for a in typing.get_args(t):
+            if isinstance(a, (list, tuple)):
+                for x in a:
+                    go(x)
+            else:
+                go(a)
+
+    go(tp)
+    return out
+
+
+def resolved_member_types(cls, kind: str) -> dict:
+    """member name → the type the library really works with after resolution"""
+    try:
+        if kind == "pydantic_v2.BaseModel" and hasattr(cls, "model_fields"):
+            return {n: f.annotation for n, f in cls.model_fields.items()}
+        if kind == "pydantic.BaseModel" and hasattr(cls, "__fields__"):
+            def v1_types(f):
+                out = [f.outer_type_, f.type_]
+                for sf in f.sub_fields or []:
+                    out += v1_types(sf)
+                if f.key_field is not None:
+                    out += v1_types(f.key_field)
+                return out
+
+            return {n: v1_types(f) for n, f in cls.__fields__.items()}
+        return dict(typing.get_type_hints(cls, include_extras=True))
+    except Exception:  # noqa: BLE001  (reported by the resolution step)
+        return {}
+
+
+def hiding_check(mod, kind: str) -> dict | None:
+    """No member or class hides a name the module needs: every class of the module that a member's
+    annotation names (evaluated in the module's global scope, where the schema's $ref → class mapping
+    lives) must be the class the library resolved the member to — not None, not another object."""
+    classes = set(classes_of(mod))
+    for cls in classes:
+        anns = cls.__dict__.get("__annotations__", {})
+        if not anns:
+            continue
+        resolved = resolved_member_types(cls, kind)
+        for member, text in anns.items():
+            if not isinstance(text, str) or member not in resolved:
+                continue
+            try:
+                with warnings.catch_warnings():
+                    warnings.simplefilter("ignore")
+                    expected = eval(text, dict(vars(mod)))  # noqa: S307
+            except Exception:  # noqa: BLE001
+                continue
+            want = leaf_classes(expected, classes)
+            have = leaf_classes(resolved[member], classes)
+            missing = want - have
+            if missing:
+                name = sorted(c.__name__ for c in missing)[0]
+                return {"mechanism": "shadowed_name", "name": name, "where": f"{cls.__name__}.{member}",
+                        # the hiding member is the one named like the class: the annotated member itself, or a sibling
+                        "hider": "own_member" if member == name else "sibling_member",
+                        "error": f"annotation {text!r} of {cls.__name__}.{member} names the class {name} but resolves to {str(resolved[member])[:120]}: "
+                                 f"the member {name!r} of {cls.__name__} hides the class inside the class body"}
+    return None
+
+
+def instance_check(mod, kind: str, root: str, instance) -> dict | None:
+    """one conforming instance must be accepted (pydantic kinds only: the others do not validate)"""
+    cls = getattr(mod, root, None)
+    if cls is None or instance is None:
+        return None
+    try:
+        if kind == "pydantic_v2.BaseModel":
+            cls.model_validate(instance)
+        elif kind == "pydantic.BaseModel":
+            cls.parse_obj(instance)
+    except Exception as e:  # noqa: BLE001
+        return {"mechanism": "shadowed_name", "name": "", "where": root, "hider": "unknown", "error": f"conforming instance {json.dumps(instance)[:120]} rejected: {type(e).__name__}: {str(e)[:200]}", "instance": True}
+    return None
+
+
+def dynamic_check(code: str, kind: str, instance=None, root: str = "Model") -> dict | None:
     """None when the module imports and every model resolves its forward references; else the failure.
     Only failures of *name binding* count (NameError and the libraries' undefined-annotation errors)."""
     try:
@@ -541,6 +636,13 @@ def dynamic_check(code: str, kind: str) -> dict | None:
                 if n:
                     return {"mechanism": "unresolved_forward_ref", "name": n, "where": cls.__name__, "error": f"{type(e).__name__}: {str(e)[:200]}"}
                 return {"mechanism": "other_error", "name": "", "where": cls.__name__, "error": f"{type(e).__name__}: {str(e)[:200]}"}
+        hid = hiding_check(mod, kind)
+        if hid:
+            return hid
+        if instance is not None:
+            bad = instance_check(mod, kind, root, instance)
+            if bad:
+                return bad
     finally:
         e2e.unload(mod)
     return None
@@ -572,7 +674,7 @@ def oracle_module(ck: Check, camp, inp: dict, code: str, kind: str, executable: 
         camp.hit("unparsable(C01)")
         return True
     static = scope_analysis(code)
-    dyn = dynamic_check(code, kind) if executable else None
+    dyn = dynamic_check(code, kind, inp.get("instance"), inp.get("root", "Model")) if executable else None
     if dyn and dyn["mechanism"] in ("environment", "other_error"):
         camp.hit("dynamic:" + dyn["mechanism"])
         if dyn["mechanism"] == "other_error":
@@ -582,9 +684,11 @@ def oracle_module(ck: Check, camp, inp: dict, code: str, kind: str, executable: 
     if dyn:
         # classify through the static analysis when it names the same identifier
         st = next((p for p in static if p["name"] == dyn["name"]), None)
-        mech = st["mechanism"] if st else ("missing_import" if dyn["mechanism"] == "import_nameerror" else "unresolved_forward_ref")
+        mech = "shadowed_name" if dyn["mechanism"] == "shadowed_name" else st["mechanism"] if st else ("missing_import" if dyn["mechanism"] == "import_nameerror" else "unresolved_forward_ref")
+        if mech == "shadowed_name":
+            st = None
         problem = {"mechanism": mech, "name": dyn["name"], "where": dyn["where"], "observed": dyn["error"], "seen": "dynamic" + ("+static" if st else ""),
-                   "use": st["use"] if st else "resolution"}
+                   "use": "member_hides_class" if mech == "shadowed_name" else st["use"] if st else "resolution", "hider": dyn.get("hider")}
     elif static:
         p = static[0]
         problem = {"mechanism": p["mechanism"], "name": p["name"], "where": p["where"], "observed": f"static scope analysis: {p['name']} ({p['where']})", "seen": "static", "use": p["use"]}
@@ -603,6 +707,8 @@ def oracle_module(ck: Check, camp, inp: dict, code: str, kind: str, executable: 
         "opts_key": opts_key(inp.get("opts", {})),
         "keep_model_order": bool(inp.get("opts", {}).get("keep_model_order")),
     }
+    if problem.get("hider"):
+        cls["hider"] = problem["hider"]
     ck.fail(cls, dict(inp, code=code), f"{problem['observed']} [{problem['where']}]")
     return False
 
@@ -614,10 +720,12 @@ def opts_key(opts: dict) -> str:
     return "any"
 
 
-def e2e_case(ck: Check, camp, doc, kind: str, opts: dict, target: str | None, input_type: str = "jsonschema", feats=()) -> None:
+def e2e_case(ck: Check, camp, doc, kind: str, opts: dict, target: str | None, input_type: str = "jsonschema", feats=(), instance=None) -> None:
     camp.evaluations += 1
     camp.hit("kind:" + kind)
     inp = {"document": doc, "input_file_type": input_type, "model": kind, "opts": opts, "target": target}
+    if instance is not None:
+        inp["instance"] = instance
     res = e2e.run_generate(doc, input_file_type=input_type, model=kind, opts=schemagen.materialise_options(opts), target=target)
     if res.hang:
         camp.hit("hang(C01)")
@@ -641,8 +749,25 @@ def e2e_case(ck: Check, camp, doc, kind: str, opts: dict, target: str | None, in
         camp.samples.append({"document": doc, "model": kind, "opts": opts, "target": target})
 
 
-def campaign_e2e(ck: Check, n: int, n_collide: int, n_gql: int) -> None:
-    camp = ck.campaign("e2e: generate() → import the module → resolve forward references of every model; static scope analysis (5 kinds, msgspec static only)")
+HIDE_OPTS = [{}, {}, {"use_union_operator": True}, {"use_standard_collections": True}, {"use_annotated": True, "field_constraints": True},
+             {"use_generic_container_types": True}, {"use_default_kwarg": True}, {"strip_default_none": True}, {"force_optional_for_required_fields": True},
+             {"use_field_description": True}, {"collapse_root_models": True}]
+
+
+def campaign_hiding(ck: Check, camp, rng: Rng, n: int) -> None:
+    """members named exactly like the class their type refers to, the $ref 1, 2 or 3 levels down"""
+    for d, (schema, value) in schemagen.HIDE_DEFS.items():  # every shape once, pydantic v2 (the kind that renames the member)
+        for shape, s, v in schemagen.hide_shapes(d, value)[:: 1 if d == "Address" else 3]:
+            doc = {"title": "Model", "type": "object", "properties": {d: s}, "definitions": {d: schema}}
+            e2e_case(ck, camp, doc, "pydantic_v2.BaseModel", {}, None, "jsonschema", ["hide:" + shape], instance={d: v})
+    for i in range(n):
+        doc, inst, feats = schemagen.hiding_document(rng)
+        kind = e2e.EXECUTABLE_KINDS[i % 4] if rng.chance(1, 2) else "pydantic_v2.BaseModel"
+        e2e_case(ck, camp, doc, kind, dict(rng.choice(HIDE_OPTS)), None, "jsonschema", feats, instance=inst)
+
+
+def campaign_e2e(ck: Check, n: int, n_collide: int, n_gql: int, n_hide: int = 60) -> None:
+    camp = ck.campaign("e2e: generate() → import the module → resolve forward references of every model → no member hides a class its annotation names (+ one conforming instance for the member-named-like-its-class family); static scope analysis (5 kinds, msgspec static only)")
     t0 = time.time()
     rng = ck.rng.fork("e2e")
     for doc, kind, opts, target, it in E2E_CORPUS:
@@ -658,6 +783,7 @@ def campaign_e2e(ck: Check, n: int, n_collide: int, n_gql: int) -> None:
         opts, target = schemagen.random_options(rng)
         opts = {k: v for k, v in opts.items() if k in ("use_union_operator", "use_standard_collections", "use_annotated", "field_constraints", "use_default_kwarg", "snake_case_field")}
         e2e_case(ck, camp, sdl, rng.choice(e2e.MODEL_KINDS), opts, target, "graphql", ["graphql"])
+    campaign_hiding(ck, camp, ck.rng.fork("hiding"), n_hide)
     camp.wall_s = time.time() - t0
 
 
@@ -731,7 +857,7 @@ def known_findings(ck: Check) -> None:
         probe = Check(ck.prop, ck.tier)
         probe.findings = []
         camp = probe.campaign("witness")
-        e2e_case(probe, camp, w["document"], w["model"], w.get("opts", {}), w.get("target"), w.get("input_file_type", "jsonschema"))
+        e2e_case(probe, camp, w["document"], w["model"], w.get("opts", {}), w.get("target"), w.get("input_file_type", "jsonschema"), instance=w.get("instance"))
         if probe.failures:
             ck.known(f["id"], f["what"])
 
@@ -748,7 +874,7 @@ def run(ck: Check) -> None:
     campaign_histories(ck, 400 if quick else 4000)
     campaign_prune(ck, 200 if quick else 3000)
     campaign_type_imports(ck, 800 if quick else 4000, thorough=not quick)
-    campaign_e2e(ck, 520 if quick else 3000, 140 if quick else 800, 60 if quick else 300)
+    campaign_e2e(ck, 520 if quick else 3000, 140 if quick else 800, 60 if quick else 300, 80 if quick else 800)
     ck.search_hooks.append(search_after_break)
     known_findings(ck)
 
@@ -758,7 +884,7 @@ def replay(ck: Check, path: str) -> int:
     inp = data.get("input") or {}
     camp = ck.campaign("replay")
     if "document" in inp:
-        e2e_case(ck, camp, inp["document"], inp["model"], inp.get("opts", {}), inp.get("target"), inp.get("input_file_type", "jsonschema"))
+        e2e_case(ck, camp, inp["document"], inp["model"], inp.get("opts", {}), inp.get("target"), inp.get("input_file_type", "jsonschema"), instance=inp.get("instance"))
     for f in ck.failures:
         print("REPLAY-FAILS:", json.dumps(f.classification), f.observed[:300])
     if not ck.failures:
